@@ -217,6 +217,31 @@ theorem block_average_rect (pw : K → K) (hp : PowLike pw) (x y z : List K) (n 
   · unfold Interval.averageX
     rw [arrFn_toArray _ _ (by rw [gridL_length]; exact knot_lt hk), gridL_knot x n k hn hk]
 
+/-- the last block of the averaging holds the single final sample, which is a fixed point of the
+match: it is whatever the recreate strategy left there (`z[L - 1]`; the piecewise-constant strategy
+leaves `y[m - 1]`).  This is why the prose speaks of the original *intervals*: the last average has
+no interval unless `append_one_sample` is applied first (section 6). -/
+theorem block_average_last (pw : K → K) (hp : PowLike pw) (x y z : List K) (n : ℕ)
+    (s target : String) (tr : Rule)
+    (hx : x.Pairwise (· < ·)) (hm : 2 ≤ x.length) (hn : 2 ≤ n)
+    (hz : z.length = (x.length - 1) * n + 1)
+    (hs : s = "closest" ∨ s = "lower" ∨ s = "higher")
+    (htr : Rule.ofString? target = some tr) (z' : List K)
+    (h : matchRef pw (gridL x n) z x y none none s target "rectangle" = .ok (some z')) :
+    (∀ k, k < x.length → arrFn z'.toArray (k * n) = arrFn z.toArray (k * n)) ∧
+    Interval.rowCount ((x.length - 1) * n + 1) n (x.length - 1) = 1 ∧
+    Interval.averageY (arrFn z'.toArray) ((x.length - 1) * n + 1) n (x.length - 1)
+      = z[(x.length - 1) * n]'(by omega) := by
+  have hk := matchRef_on_grid_knots pw hp x y z z' n s target "rectangle" tr .rectangle hx hn hm hz
+    hs htr rfl h
+  have hc : Interval.rowCount ((x.length - 1) * n + 1) n (x.length - 1) = 1 := by
+    unfold Interval.rowCount; omega
+  refine ⟨hk, hc, ?_⟩
+  unfold Interval.averageY
+  rw [hc]
+  simp only [sumTo, win_apply, Nat.add_zero, zero_add, Nat.cast_one, div_one]
+  rw [hk (x.length - 1) (by omega), arrFn_toArray z _ (by omega)]
+
 /-! ## 6. After `append_one_sample`
 
 `append_one_sample` gives the last average an interval of its own.  The statement holds verbatim
@@ -388,6 +413,27 @@ example : matchRef (fun t : ℚ => powN t 1) (gridL exX 2) exZ exX exY none none
 example : ∃ s : Weaver.State ℚ, Weaver.init (some exX) exY = .ok s ∧ s.rx = s.x ∧ s.ry = s.y ∧
     s.x.Pairwise (· < ·) ∧ s.y.length = s.x.length ∧ 2 ≤ s.x.length :=
   ⟨_, rfl, rfl, rfl, by decide +kernel, by decide +kernel, by decide +kernel⟩
+
+/-- … and `weaver_pipeline` gives the run of the two public methods on it (here: the
+piecewise-constant strategy, default search strategy, trapezoid target) -/
+example : ∃ s2 : Weaver.State ℚ,
+    Weaver.runOps
+      { x := exX, y := exY, rx := exX, ry := exY, ox := exX, oy := exY, callerX := exX,
+        callerY := exY }
+      [.recreate "pc" (fun t => powN t 1) 2 [] [] [] [],
+       .integralMatch (fun t => powN t 1) none none "closest" "trapezoid" "rectangle"]
+      = Weaver.ok s2 ∧ s2.x = gridL exX 2 ∧ s2.y.length = 7 ∧
+    ∀ (k : ℕ) (hk : k < 3),
+      winIntegral .trapezoid (arrFn s2.x.toArray) (arrFn s2.y.toArray) (k * 2) ((k + 1) * 2)
+        = exY[k]'(by simp [exY]; omega) * (exX[k + 1]'(by simp [exX]; omega)
+            - exX[k]'(by simp [exX]; omega)) := by
+  obtain ⟨_, s2, _, _, h, hx2, _, _, hl, hint⟩ := weaver_pipeline (fun t : ℚ => powN t 1)
+    (powLike_powN 1 le_rfl)
+    { x := exX, y := exY, rx := exX, ry := exY, ox := exX, oy := exY, callerX := exX,
+      callerY := exY }
+    "pc" (by decide) (fun t => powN t 1) 2 [] [] [] [] "closest" "trapezoid" .trapezoid rfl rfl
+    (by decide +kernel) (by decide +kernel) (by decide +kernel) le_rfl (Or.inl rfl) rfl
+  exact ⟨s2, h, hx2, hl, fun k hk => hint k hk⟩
 
 end examples
 
